@@ -14,7 +14,7 @@ from . import memory_cache
 def load(R):
     memory_cache.load(R)
     VKey = R.record("VersionedDataSourceKey", key=TStr, version=TStr)
-    R.record("DataSourceKey", key=TStr)
+    DKey = R.record("DataSourceKey", key=TStr)
     R.record("ContentAddressableHash", key=TStr)
     R.attr("content_key", TOpt(VKey), mutable=True)
     R.attr("result_type", TObj("nn:enum:ResultType"))
@@ -194,6 +194,19 @@ def load(R):
     R.contract(D + "output_metadata", assumed=True, types={"self": DS, "content_key": VKey, "metadata_key": TStr, "value": TObj()},
                ensures=["self.writes == old(self.writes) + 1", "same(self.meta[content_key.key + '#' + content_key.version + '|' + metadata_key], value)"],
                raises={"OSError+": []}, modifies=["self.meta", "self.writes"])
+    # deletions through the data source, in the `values` view of this module (not called by the current code of StorageBackendBase:
+    # stated so that new code calling them is checked against what they do instead of stopping the checker)
+    R.contract(D + "delete_all_versions", assumed=True, types={"self": DS, "key": TOpt(DKey), "recursive": TBool},
+               raises={"OSError+": ["self.writes >= old(self.writes)"]},
+               ensures=["self.writes == old(self.writes) + 1",
+                        "forall(VersionedDataSourceKey, lambda v: implies(v.key == key.key, v not in self.values))",
+                        "forall(VersionedDataSourceKey, lambda v: implies(v.key != key.key, (v in self.values) == old(v in self.values) and same(self.values[v], old(self.values[v]))))"],
+               modifies=["self.values", "self.writes"], notes="interface: deletes every version of the key")
+    R.contract(D + "delete_nonversioned_key", assumed=True, types={"self": DS, "key": TOpt(DKey)},
+               raises={"OSError+": ["self.writes >= old(self.writes)"]},
+               ensures=["self.writes == old(self.writes) + 1",
+                        "forall(VersionedDataSourceKey, lambda v: (v in self.values) == old(v in self.values) and same(self.values[v], old(self.values[v])))"],
+               modifies=["self.writes"], notes="interface: removes the link only; versions stay")
     R.contract(D + "input_metadata", assumed=True, types={"self": DS, "content_key": TOpt(VKey), "metadata_key": TStr}, returns=TObj(),
                raises={"OSError+": []}, ensures=["implies(content_key is not None, same(result, self.meta[content_key.key + '#' + content_key.version + '|' + metadata_key]))"])
 
